@@ -390,7 +390,11 @@ func genText(t *rapid.T, serial *int) ([]Item, bool) {
 		}
 		for k := 0; k < nr; k++ {
 			var ids []int
-			for c := 1 + u(t, 7, "nclauses"); c > 0; c-- {
+			nc := 1 + u(t, 7, "nclauses")
+			if u(t, 25, "longrun") == 0 { // a long run (the loader collects the clauses of a run in a buffer)
+				nc = 30 + u(t, 45, "longrunlen")
+			}
+			for c := nc; c > 0; c-- {
 				*serial++
 				ids = append(ids, *serial)
 			}
@@ -475,7 +479,7 @@ func genCase(all bool) *rapid.Generator[Case] {
 func TestProp(t *testing.T) {
 	r := h.Start(t, "C20")
 	defer r.Finish(t)
-	r.Rule("rapid-generated histories of 1-4 loads on one interpreter (through Exec, or through consult/1 of a file - a new file name after every successful load, the same name again after a failed one), optionally followed by assertz on a dynamic predicate. A text defines 1-3 of the predicates p1..p4 (unary) and w3/3 (structured head arguments) by clauses carrying serial numbers (facts, rules, and rules whose body is a top-level disjunction - one clause of the text, two alternatives in source order), in runs of 1-7 clauses, several interleaved runs for predicates declared discontiguous, with dynamic/discontiguous/multifile declarations in the three forms (p/1, [p/1], (p/1, q/1)), declaration-only predicates, output directives between runs of different predicates and initialization/1 goals that print what they can see. Fault injection: before the good text is loaded, one fault of each kind is injected at every position (quick: at a third of the positions) - a syntax error (unbalanced bracket, stray token, unterminated quoted atom / string / comment / 0', missing end), a non-callable clause, a failing / throwing / unknown directive, a clause that makes a predicate discontiguous without declaration - and every such text is loaded on the same interpreter. Oracle: a model map predicate -> clause list. A faulty text must make the load return an error and leave every predicate (of this and of earlier texts) enumerating exactly as before (answers, or the same existence error); a good text must load, give every predicate of the text exactly its clauses in source order (replacing the earlier definition unless multifile on both sides, then appended), the directives' output in text order followed by the initialization goals' output computed on the loaded database. Non-trivial: a text with >= 2 predicates or interleaved runs loaded over an earlier text, with faults injected. Distinct by case.",
+	r.Rule("rapid-generated histories of 1-4 loads on one interpreter (through Exec, or through consult/1 of a file - a new file name after every successful load, the same name again after a failed one), optionally followed by assertz on a dynamic predicate. A text defines 1-3 of the predicates p1..p4 (unary) and w3/3 (structured head arguments) by clauses carrying serial numbers (facts, rules, and rules whose body is a top-level disjunction - one clause of the text, two alternatives in source order), in runs of 1-7 clauses (now and then 30-74), several interleaved runs for predicates declared discontiguous, with dynamic/discontiguous/multifile declarations in the three forms (p/1, [p/1], (p/1, q/1)), declaration-only predicates, output directives between runs of different predicates and initialization/1 goals that print what they can see. Fault injection: before the good text is loaded, one fault of each kind is injected at every position (quick: at a third of the positions) - a syntax error (unbalanced bracket, stray token, unterminated quoted atom / string / comment / 0', missing end), a non-callable clause, a failing / throwing / unknown directive, a clause that makes a predicate discontiguous without declaration - and every such text is loaded on the same interpreter. Oracle: a model map predicate -> clause list. A faulty text must make the load return an error and leave every predicate (of this and of earlier texts) enumerating exactly as before (answers, or the same existence error); a good text must load, give every predicate of the text exactly its clauses in source order (replacing the earlier definition unless multifile on both sides, then appended), the directives' output in text order followed by the initialization goals' output computed on the loaded database. Non-trivial: a text with >= 2 predicates or interleaved runs loaded over an earlier text, with faults injected. Distinct by case.",
 		"the load model in props/c20", "effects of directives that ran before a fault are not asserted (only output directives are generated); a directive between two clauses of one predicate is never generated")
 	r.Regress(t)
 	if r.Failed() {
